@@ -63,6 +63,9 @@ pub fn make_case(p: &Pair) -> Option<QCase> {
         a != b
     };
     let cancelling = p.u1.cancelling() || p.u2.cancelling();
+    if p.u1.noise_text(" ").is_some() || p.u2.noise_text(" ").is_some() {
+        classes.push("explicit-cancelling-factor(x/x^1 ...)");
+    }
     let nt;
     if p.form <= 2 {
         classes.push(if same_dim { "commensurable" } else { "incommensurable" });
